@@ -64,6 +64,28 @@ def main():
         json.dump(sess, open(p, "w"))
         r = tlc_or_die("TraceInteractive", cfg="TraceInteractive_FALSE.cfg", env={"TRACE_FILE": p})
         expect("TraceInteractive rejects a session with one event removed", not any(l.startswith("ACC 1") for l in r.lines))
+        # (a5) Returns.tla: a call that does not come back is reported with its input (processor-time budget / blocked budget), a job whose
+        # calls all return is not; the leads-to holds on the model and fails under the Diverge switch
+        import common
+        saved = common.RETURN_CPU_S, common.RETURN_IDLE_S
+        try:
+            common.RETURN_CPU_S, common.RETURN_IDLE_S = 6.0, 8.0
+            for kind in ("spin", "block"):
+                job = {"out": os.path.join(work, "hang.out"), "items": [{"n": 1}, {"n": 2, kind: True, "input": "the one that hangs"}, {"n": 3}]}
+                try:
+                    common.run_driver("hang.py", [job], work, name="hang")
+                    got = None
+                except common.DoesNotReturn as e:
+                    got = e
+                expect("a call that never returns (%s) is reported with its input" % kind, got is not None and isinstance(got.item, dict) and got.item.get("n") == 2, getattr(got, "why", ""))
+            common.run_driver("hang.py", [{"out": os.path.join(work, "hang.out"), "items": [{"n": k} for k in range(50)]}], work, name="hang")
+            expect("a job whose calls all return raises nothing", True)
+        finally:
+            common.RETURN_CPU_S, common.RETURN_IDLE_S = saved
+        r = run_tlc("MC_Returns", cfg="MC_Returns_ok.cfg", workers=4)
+        expect("MC_Returns: every call returns (leads-to holds)", r.ok)
+        r = run_tlc("MC_Returns", cfg="MC_Returns_bug.cfg", workers=4)
+        expect("MC_Returns with the Diverge switch: the leads-to is violated", (not r.ok) and "violated" in r.raw)
         # (b) model bug switches
         for v in ("bug1", "bug2", "bug3", "bug4", "bug5", "bug6", "bug7", "bug8"):
             r = run_tlc("MC_System", cfg="MC_System_%s.cfg" % v, workers=4)
